@@ -106,7 +106,8 @@ def faults_part(ctx, only=None):
         if not ctx.quick:
             cov["actions_never_taken"] = r.coverage_zero()
         if holes:
-            by = collections.Counter((h["class"], h["op"], h["pv"]) for h in holes if h["model"] == "hostpanic")
+            by = collections.Counter((h["class"], h["op"], h["pv"]) for h in holes if h["model"] == "hostpanic"
+                                     and not (h["form"] == "recover" and h["situation"].startswith("tmpl_")))
             cov["model_counterexample"] = {
                 "invariant": "ModelMeetsReference (model outcome in the reference's outcome set) - evaluated by TLC for every cell",
                 "cells": len(holes),
